@@ -12,6 +12,12 @@ carrier and for CPython's compensated sum over any field) on binary64 bit patter
 Neumaier summation: numerator and `error` are compared BIT FOR BIT; the exact recursion on the rational values
 of the same numbers is compared with a tolerance where it is well conditioned.
 
+entry "apply" (round 4): the call EXPRESSIONS `parcor(*args, **kwargs)` / `parcor_stable(*args, **kwargs)`: zero to
+two positional arguments, keywords `fir_filt` / `filt` / a foreign name, objects of four kinds (a constructed
+ZFilter with Laurent numerator / denominator; int / bool / Fraction; a Stream; float / complex / None / str / list /
+tuple / dict / Poly); observed: which exception and WHEN (by the call expression or by the first next()), the
+yields, the verdict - against ALV.C11.parcorApply / stableApply.
+
 entry "call": any ZFilter(num, den) with Laurent numerator / denominator (negative powers, missing power 0,
 leading / trailing zeros, constant / zero / feedback denominators), built from dicts, lists or z-expressions,
 called positionally or by keyword.
@@ -21,7 +27,7 @@ import common
 from common import err_kind, enc, encl, dec, decl, close_list
 from fractions import Fraction as F
 
-ENTRIES = ("fparcor", "call", "flevinson")
+ENTRIES = ("fparcor", "call", "flevinson", "apply")
 TOL = F(1, 10**9)
 EPS = F(1, 10**16)
 SAFETY = 1000
@@ -179,6 +185,103 @@ def gen_flev(rng, n):
     return out
 
 
+RATIONAL_SPELL = ["int", "bool", "fraction"]
+OTHER_SPELL = ["float", "complex", "none", "str", "list", "tuple", "dict", "poly"]
+
+
+def _rand_obj(rng):
+    t = rng.random()
+    if t < 0.6:
+        order = rng.choice([0, 1, 2, 3])
+        u = rng.random()
+        if u < 0.6:
+            ks = [F(rng.randint(1, 4) * rng.choice([1, -1]), 5) for _ in range(order)]
+            if rng.random() < .15 and ks:
+                ks[rng.randrange(order)] = F(rng.choice([1, -1]))                 # ParCorError
+            g = _rq(rng, 0)
+            num = [g * x for x in _step_up(ks, F(1))]
+        else:
+            num = [_rq(rng, 0.1) for _ in range(order + 1)]
+        v = rng.random()
+        if v < 0.6:
+            den = [_rq(rng, 0)]
+        elif v < 0.8:
+            den = [F(rng.randint(1, 5)), _rq(rng, 0)] + [_rq(rng, 0) for _ in range(rng.randint(0, 1))]   # feedback
+        else:
+            den = [F(0)] * rng.randint(1, 2) + [F(rng.randint(1, 4))]
+        nl = rng.choice([0, 0, 0, 1, -1, 2])
+        dl = rng.choice([0, 0, 0, 1, -1]) if rng.random() < .7 else nl
+        return {"kind": "filt", "num_lo": nl, "num": encl(num), "den_lo": dl, "den": encl(den)}
+    if t < 0.75:
+        return {"kind": "rational", "spell": rng.choice(RATIONAL_SPELL)}
+    if t < 0.82:
+        return {"kind": "stream"}
+    return {"kind": "other", "spell": rng.choice(OTHER_SPELL)}
+
+
+def gen_apply(rng, n):
+    out = []
+    for _ in range(n):
+        o, o2 = _rand_obj(rng), _rand_obj(rng)
+        shape = rng.choice(["pos"] * 6 + ["kw-fir_filt"] * 3 + ["kw-filt"] * 3 +
+                           ["kw-foreign", "none", "pos-pos", "pos+kw", "kw+kw"])
+        if shape == "pos":
+            args, kw = [o], []
+        elif shape.startswith("kw-"):
+            args, kw = [], [{"name": {"kw-fir_filt": "fir_filt", "kw-filt": "filt", "kw-foreign": "filter"}[shape], "obj": o}]
+        elif shape == "none":
+            args, kw = [], []
+        elif shape == "pos-pos":
+            args, kw = [o, o2], []
+        elif shape == "pos+kw":
+            args, kw = [o], [{"name": rng.choice(["fir_filt", "filt"]), "obj": o2}]
+        else:
+            args, kw = [], [{"name": "fir_filt", "obj": o}, {"name": "filt", "obj": o2}]
+        out.append({"entry": "apply", "args": args, "kwargs": kw, "shape": shape})
+    return out
+
+
+def _build_obj(o):
+    from audiolazy import ZFilter, Stream, Poly
+    k = o["kind"]
+    if k == "filt":
+        num, den = decl(o["num"]), decl(o["den"])
+        return ZFilter(dict((o["num_lo"] + i, x) for i, x in enumerate(num)),
+                       dict((o["den_lo"] + i, x) for i, x in enumerate(den)))
+    if k == "rational":
+        return {"int": 3, "bool": True, "fraction": F(3, 2)}[o["spell"]]
+    if k == "stream":
+        return Stream(1)
+    return {"float": 2.5, "complex": 1j, "none": None, "str": "ab", "list": [1, 0.5], "tuple": (1,),
+            "dict": {0: 1}, "poly": Poly([1, 2])}[o["spell"]]
+
+
+def _apply_parcor(args, kwargs):
+    from audiolazy import parcor
+    from audiolazy.lazy_lpc import ParCorError
+    try:
+        g = parcor(*args, **kwargs)
+    except Exception as ex:
+        return {"when": "call", "err": err_kind(ex)}
+    ks, raised = [], False
+    try:
+        for k in g:
+            ks.append(k)
+    except ParCorError:
+        raised = True
+    except Exception as ex:
+        return {"when": "next" if not ks else "mid-iteration", "err": err_kind(ex)}
+    return {"when": "gen", "ks": encl(ks), "raised": raised, "float": any(isinstance(k, float) for k in ks)}
+
+
+def _apply_stable(args, kwargs):
+    from audiolazy import parcor_stable
+    try:
+        return {"when": "verdict", "verdict": bool(parcor_stable(*args, **kwargs))}
+    except Exception as ex:
+        return {"when": "call", "err": err_kind(ex)}
+
+
 def case_call(num_lo, num, den_lo, den, build="dict", kw=False, spell="fraction"):
     c = {"entry": "call", "num_lo": num_lo, "num": encl(num), "den_lo": den_lo, "den": encl(den),
          "build": build, "kw": kw}
@@ -247,6 +350,7 @@ def generate(rng, tier, scale=1):
     n = (260 if quick else 3500) * scale
     cases = gen_float(rng, n) + gen_call(rng, (160 if quick else 1500) * scale)
     cases += gen_flev(rng, (200 if quick else 3000) * scale)
+    cases += gen_apply(rng, (220 if quick else 2500) * scale)
     if scale == 1:
         cases.append(case_flev([12.0, 6.0, 0.0, -3.0, -6.0, -3.0, 0.0, 2.0, 4.0, 2.0], 3, "doc"))
         cases.append(case_flev([1.0, 2.0, 3.0, 4.0, 5.0, 3.0, 2.0, 1.0], 7, "doc"))
@@ -303,6 +407,18 @@ def impl(c):
         a = list(f.numerator)
         return {"a": [bits(x) for x in a], "error": bits(f.error),
                 "types": sorted(set(type(x).__name__ for x in a + [f.error]))}
+    if e == "apply":
+        try:
+            args = [_build_obj(o) for o in c["args"]]
+            kwargs = dict((p["name"], _build_obj(p["obj"])) for p in c["kwargs"])
+        except Exception as ex:
+            return {"construct_err": err_kind(ex)}
+        o = {"parcor": _apply_parcor(args, kwargs)}
+        # fresh objects for the second call (a Stream argument is consumed by the first)
+        args = [_build_obj(o_) for o_ in c["args"]]
+        kwargs = dict((p["name"], _build_obj(p["obj"])) for p in c["kwargs"])
+        o["stable"] = _apply_stable(args, kwargs)
+        return o
     if e == "call":
         num, den = _spell(decl(c["num"]), c.get("spell")), _spell(decl(c["den"]), c.get("spell"))
         nl, dl = c["num_lo"], c["den_lo"]
@@ -336,6 +452,10 @@ def impl(c):
 def request(c):
     if c["entry"] == "fparcor":
         return {"entry": "fparcor", "bits": [bits(x) for x in c["num"]]}
+    if c["entry"] == "apply":
+        strip = lambda o: {k: v for k, v in o.items() if k != "spell"}
+        return {"entry": "apply", "args": [strip(o) for o in c["args"]],
+                "kwargs": [{"name": p["name"], "obj": strip(p["obj"])} for p in c["kwargs"]]}
     if c["entry"] == "flevinson":
         return {"entry": "flevinson", "bits": [bits(x) for x in c["r"]], "order": c["order"]}
     return {k: v for k, v in c.items() if k not in ("build", "kw", "spell")}
@@ -438,6 +558,29 @@ def compare(c, io, drv):
                 if abs(F(unbits(io["error"])) - dec(ex["spec_error"])) > rel:
                     out.append(("spec", "error %r is not r0*prod(1-k^2) = %r" % (unbits(io["error"]), float(dec(ex["spec_error"])))))
         return out
+    if e == "apply":
+        if "construct_err" in io:
+            io["compared"] = "not compared (an argument could not be constructed)"
+            return out
+        io["compared"] = "exact"
+        for fn in ("parcor", "stable"):
+            i, m = io[fn], drv[fn]
+            if i["when"] == "gen" and m["when"] == "gen":
+                tol = 0
+                if i["float"]:
+                    ks = decl(m["ks"])
+                    if any(abs(abs(k) - 1) < F(1, 10**6) for k in ks) or _float_err(ks) > TOL / 10:
+                        io["compared"] = "not compared (float leak, ill conditioned)"
+                        continue
+                    tol = TOL
+                if not (i["raised"] == m["raised"] and close_list(decl(i["ks"]), decl(m["ks"]), tol)):
+                    out.append(("model", "%s(*args, **kwargs) yields %r raised=%s; model %r" % (fn, i["ks"], i["raised"], m)))
+                    out.append(("spec", "%s through the call expression: wrong coefficients" % fn))
+            elif {k: v for k, v in i.items() if k != "float"} != m:
+                out.append(("model", "%s(*args, **kwargs): impl %r, model %r" % (fn, i, m)))
+                if i.get("err") == "ParCorError" or (m["when"] in ("gen", "verdict")) != (i["when"] in ("gen", "verdict")):
+                    out.append(("spec", "%s through the call expression: %r, expected %r" % (fn, i, m)))
+        return out
     if e == "call":
         mp, ms = drv["parcor"], drv["stable"]
         if "construct_err" in io:
@@ -501,6 +644,8 @@ def nontrivial(c, io):
         return len(c["num"]) >= 2 and io.get("compared") == "bit-exact twin"
     if c["entry"] == "flevinson":
         return c["order"] >= 1 and io.get("compared") == "bit-exact twin"
+    if c["entry"] == "apply":
+        return "construct_err" not in io
     return "construct_err" not in io
 
 
@@ -520,6 +665,17 @@ def tally(eng, c, io):
         if "err" not in p:
             eng.count("float_parcor_branch", "ParCorError" if p.get("raised") else "completed")
             eng.count("float_stable", io.get("stable"))
+    elif e == "apply":
+        eng.count("apply_shape", c.get("shape", "?"))
+        for o in c["args"] + [p["obj"] for p in c["kwargs"]]:
+            eng.count("apply_object", o["kind"] + (":" + o["spell"] if "spell" in o else ""))
+        if "construct_err" in io:
+            eng.count("apply_parcor", "constructor:" + io["construct_err"])
+            return
+        for fn in ("parcor", "stable"):
+            i = io[fn]
+            eng.count("apply_" + fn, i["when"] + (":" + i["err"] if "err" in i else
+                                                  ":ParCorError" if i.get("raised") else ""))
     elif e == "flevinson":
         eng.count("flev_order", c["order"])
         eng.count("flev_how", c.get("how", "?"))
@@ -560,6 +716,18 @@ def shrink(c):
             for y in (0, 1, round(num[i]), round(num[i], 3), round(num[i], 1)):
                 if y != num[i] and not (i in (0, len(num) - 1) and y == 0) and len(repr(y)) < len(repr(num[i])):
                     yield case_f(num[:i] + [y] + num[i + 1:], c.get("how", "?"))
+    elif e == "apply":
+        simple = {"kind": "filt", "num_lo": 0, "num": ["2", "1"], "den_lo": 0, "den": ["1"]}
+        for i, o in enumerate(c["args"]):
+            if o != simple:
+                yield dict(c, args=c["args"][:i] + [simple] + c["args"][i + 1:])
+            if o["kind"] == "filt" and (o["num_lo"] or o["den_lo"]):
+                yield dict(c, args=c["args"][:i] + [dict(o, num_lo=0, den_lo=0)] + c["args"][i + 1:])
+        for i, p in enumerate(c["kwargs"]):
+            if p["obj"] != simple:
+                yield dict(c, kwargs=c["kwargs"][:i] + [{"name": p["name"], "obj": simple}] + c["kwargs"][i + 1:])
+            if len(c["kwargs"]) > 1:
+                yield dict(c, kwargs=c["kwargs"][:i] + c["kwargs"][i + 1:])
     elif e == "flevinson":
         r, o = list(c["r"]), c["order"]
         if o > 1:
@@ -606,6 +774,9 @@ def classify(c, io, drv):
     e = c["entry"]
     if e == "fparcor":
         return "fparcor:float-coefficients-differ-from-exact"
+    if e == "apply":
+        return "apply:%s/%s" % (io.get("parcor", {}).get("err") or io.get("parcor", {}).get("when"),
+                                io.get("stable", {}).get("err") or io.get("stable", {}).get("when"))
     if e == "flevinson":
         return "flevinson:%s" % (io.get("err") or "float-result-differs-from-exact")
     p = io.get("parcor", {})
